@@ -208,8 +208,9 @@ def contracts():
 # --------------------------------------------------------------------------------------
 
 
-def prior_init_contract(L, mode):
-    """mode in {'exact', 'inexact', 'flags', 'diffuse'}: the initial random variable is N(tcoeffs, diag(std^2)) with
+def prior_init_contract(L, mode, ctor="wiener"):
+    """ctor in {'wiener', 'ou', 'matern', 'general'} (the exponential priors exist for the dense model only);
+    mode in {'exact', 'inexact', 'flags', 'diffuse'}: the initial random variable is N(tcoeffs, diag(std^2)) with
     std = 0 (exact), inexact_eps (inexact), per-entry 0 / inexact_eps (boolean flags), and diffuse_eps for the
     coefficients added by diffuse_derivatives (whose means are zero); the base scale defaults to one."""
     mod = "probdiffeq.probdiffeq"
@@ -230,7 +231,19 @@ def prior_init_contract(L, mode):
                 kw["is_exact"] = False
             else:
                 kw["is_exact"] = flags_for(n, d)
-            prior = ssm.prior_wiener_integrated(list(tcoeffs), **kw)
+            if ctor == "wiener":
+                prior = ssm.prior_wiener_integrated(list(tcoeffs), **kw)
+            elif ctor == "ou":
+                W = jnp.asarray(np.random.default_rng(3).normal(size=(d, d)))
+                prior = ssm.prior_ornstein_uhlenbeck_integrated(lambda u: W @ u, list(tcoeffs), **kw)
+            elif ctor == "matern":
+                prior = ssm.prior_matern(0.7, list(tcoeffs), **kw)
+            else:
+                import probdiffeq.probdiffeq as pd
+
+                W = jnp.asarray(np.random.default_rng(4).normal(size=(n + k, d, d)))
+                ode = pd.ode_autonomous_order_arbitrary(lambda *us: sum(W[i] @ u for i, u in enumerate(us)), num_tcoeffs_in_args=n + k)
+                prior = ssm.prior_exponential(ode, list(tcoeffs), **kw)
             return prior.init.mean_flat, cov(L, prior.init), prior.output_scale
 
         return f
@@ -280,9 +293,13 @@ def prior_init_contract(L, mode):
             out.append(Instance(f"n={n},d={d},diffuse={k}", make, positive=lambda a, kw: [a[1], a[2]], names=lambda a, kw: {id(a[1]): "inexact_eps", id(a[2]): "diffuse_eps"}))
         return out
 
-    return Contract(name=f"{mod}:{fac}.prior_wiener_integrated[init,{mode}]", module=mod, qualname=fac, wrap=wrap, ensures=ensures, instances=instances,
+    cname = {"wiener": "prior_wiener_integrated", "ou": "prior_ornstein_uhlenbeck_integrated", "matern": "prior_matern", "general": "prior_exponential"}[ctor]
+    return Contract(name=f"{mod}:{fac}.{cname}[init,{mode}]", module=mod, qualname=fac, wrap=wrap, ensures=ensures, instances=instances,
                     doc="initial random variable of the prior: given means, zero means for added coefficients, diagonal covariance with the documented standard deviations")
 
 
 def init_contracts():
-    return [prior_init_contract(L, mode) for L in (DenseL, IsoL, BlockL) for mode in ("exact", "inexact", "flags", "diffuse")]
+    out = [prior_init_contract(L, mode) for L in (DenseL, IsoL, BlockL) for mode in ("exact", "inexact", "flags", "diffuse")]
+    # the exponential priors (dense model) take the same initial-condition options
+    out += [prior_init_contract(DenseL, mode, ctor) for ctor in ("general", "ou", "matern") for mode in ("inexact", "flags", "diffuse")]
+    return out
